@@ -276,8 +276,16 @@ def rvec(rng, lo, hi):
 
 
 def rnd_rot(rng, n=None):
-    """generic rotations (uniform on SO(3)) from the harness PRNG"""
+    """rotations from the harness PRNG: mostly uniform on SO(3), some very close to the identity
+    (angles 1e-7 .. 1e-2 rad) and some half turns -- the whole group, not only generic elements"""
     def one():
+        x = rng.random()
+        axis = np.array([rng.gauss(0, 1) for _ in range(3)])
+        axis /= np.linalg.norm(axis)
+        if x < 0.12:
+            return R.from_rotvec(axis * 10.0 ** rng.uniform(-7, -2)).as_quat().tolist()
+        if x < 0.17:
+            return R.from_rotvec(axis * math.pi).as_quat().tolist()
         q = [rng.gauss(0, 1) for _ in range(4)]
         return q
     if n is None:
@@ -322,6 +330,20 @@ def real_source(rng, kind=None):
     return s, kind
 
 
+def inside_point(rng, s, kind):
+    """a local point inside the body of a magnet (None for currents / dipole / open surfaces)"""
+    j = np.array(rvec(rng, -0.03, 0.03))
+    if kind in ("Cuboid", "Cylinder", "Sphere"):
+        return j
+    if kind in ("Tetrahedron", "TriangularMesh"):
+        return np.asarray(s.vertices, dtype=float).reshape(-1, 3).mean(axis=0) + j
+    if kind == "CylinderSegment":
+        r1, r2, _h, p1, p2 = s.dimension
+        ph = math.radians((p1 + p2) / 2)
+        return np.array([(r1 + r2) / 2 * math.cos(ph), (r1 + r2) / 2 * math.sin(ph), 0.0]) + j
+    return None
+
+
 def rnd_pose(rng, obj, maxlen=4, spread=2.0):
     n = rng.choice([1, 1, 2, 3, maxlen])
     if n == 1:
@@ -361,6 +383,21 @@ def real_setup(rng, max_entries=3, kinds=None):
             entries.append(s)
             desc.append(k)
     return entries, desc
+
+
+def nested_setup(rng):
+    """ONE collection (static own pose) holding a source and a nested collection whose own position differs"""
+    s1, k1 = real_source(rng)
+    rnd_pose(rng, s1, maxlen=2)
+    s2, k2 = real_source(rng)
+    rnd_pose(rng, s2, maxlen=2)
+    inner = magpy.Collection(s2)
+    inner._position = np.array([rvec(rng, -1.5, 1.5)])
+    inner._orientation = rnd_rot(rng, 1)
+    outer = magpy.Collection(s1, inner)
+    outer._position = np.array([rvec(rng, -1.5, 1.5)])
+    outer._orientation = rnd_rot(rng, 1)
+    return [outer], [f"Collection[{k1},[{k2}]]"]
 
 
 def leaves_of(obj):
@@ -449,7 +486,7 @@ def noise_floor(dentries, dobs, field):
 
     def ev(p):
         entries = [load_obj(perturb(d, p)) for d in dentries]
-        if dobs["kind"] == "array":
+        if dobs["kind"].startswith("array"):
             return f(entries, np.array(dobs["points"], dtype=float) + 1e-14 * p, squeeze=False)
         return f(entries, [load_obj(perturb(d, -p)) for d in dobs["sensors"]], squeeze=False)
     base = ev(np.zeros(3))
